@@ -8,10 +8,13 @@ func init() {
 		gMatchAck(c)
 		c06Follower(c)
 		gQuorumJoint(c)
+		gRoute(c)
 	}})
 	register(&PropertyRule{ID: "C02", Explain: "structural necessary conditions of C02 (election safety): see DESIGN.md §5 C02", Run: func(c *Check) {
 		gVote(c)
 		gElect(c)
+		gQuorumJoint(c)
+		c10Hup(c)
 	}})
 	register(&PropertyRule{ID: "C12", Explain: "structural necessary conditions of C12 (quorum arithmetic): see DESIGN.md §5 C12", Run: func(c *Check) {
 		c12Quorum(c)
